@@ -5,6 +5,7 @@ mod app;
 mod common;
 mod etrade;
 mod fmv;
+mod fuzz;
 mod ledger;
 mod pages;
 mod rng;
@@ -105,6 +106,15 @@ fn main() {
                 let mut cr = r.fork();
                 let mut s = String::new();
                 splitneutral::run_case(&format!("N{}-{}", seed, i), &mut cr, &mut s);
+                w.write_all(s.as_bytes()).unwrap();
+            }
+        }
+        "fuzz" => {
+            let mut r = rng::Rng::new(seed ^ 0xC05);
+            for i in 0..count {
+                let mut cr = r.fork();
+                let mut s = String::new();
+                fuzz::run_case(&format!("Z{}-{}", seed, i), &mut cr, &mut s);
                 w.write_all(s.as_bytes()).unwrap();
             }
         }
@@ -287,6 +297,7 @@ fn main() {
             }
         }
         "layout-replay" => replay_stdin(&mut w, layout::replay),
+        "summary-replay" => replay_stdin(&mut w, summary::replay),
         "csvrt-replay" => replay_stdin(&mut w, csvrt::replay),
         f => {
             eprintln!("unknown family {}", f);
